@@ -416,7 +416,8 @@ VALUE_POOL = {
             {"a": 1}, b"5", dt.date(2020, 1, 1), float("nan"), " 7 "],
     "float": [1.5, "2.5", 1, "x", "", None, [1.0, "2"], [1.5, "x"], "[1.5, 2]", "nan", "1e400", True, "1,5", dt.time(1, 2, 3)],
     "boolean": [True, False, "true", "False", "1", "0", "t", "f", 1, 0, 2, "yes", "", None, [True, "false"], "x", [True, "x"]],
-    "string": ["s", "", " ", 5, 1.5, True, None, ["a", "b"], "[a, b]", "a\nb", ["x", 5], "[", "]", "[]", {"k": 1}, [], [[1, 2]]],
+    "string": ["s", "", " ", 5, 1.5, True, None, ["a", "b"], "[a, b]", "a\nb", ["x", 5], "[", "]", "[]", {"k": 1}, [], [[1, 2]],
+               (1, 2), [(1, 2)], [{"a": 1}], {1, 2}],
     "text": ["line1\nline2", "s", "", 5, None, ["a", "b\nc"]],
     "url": ["http://x", "not a url", 5, ""], "person": ["A. B.", 7, ""],
     "date": [dt.date(2020, 1, 2), "2020-01-02", "2020-1-2", "02.01.2020", dt.datetime(2020, 1, 2, 3, 4, 5), "", None,
@@ -434,7 +435,9 @@ VALUE_POOL = {
     "3-tuple": ["(1;2;3)", ["a", "b", "c"], "(1;2)"],
 }
 DTYPES = ["string", "text", "int", "float", "url", "datetime", "date", "time", "boolean", "person", "2-tuple", "3-tuple"]
-DTYPE_INPUTS = DTYPES + ["DType.int", "str", "bool", "bogus", "", "0-tuple", None]
+DTYPE_INPUTS = DTYPES + ["DType.int", "str", "bool", "bogus", "", "0-tuple", None,
+                         # names of Python types that are no odML types: must be refused at any point of a history
+                         "tuple", "list", "complex", "dict", "bytes", "NoneType", "set", "datetime.date", "object"]
 
 
 def dtype_arg(d):
